@@ -397,7 +397,9 @@ def startup_before_input(P, R, rule='C02.WIRE.2'):
                 zero = tvn is not None
                 if zero:
                     sets = [t for t in f.stores() if t.ev['k'] == 'store' and root_var(t.ev['lhs']) is not None and root_var(t.ev['lhs'])['name'] == tvn]
-                    zero = bool(sets) and all(const_of(t.ev.get('rhs')) == 0 for t in sets)
+                    inits = [t for t in f.sites() if t.ev['k'] == 'decl' and t.ev.get('var') == tvn and isinstance(t.ev.get('init'), dict) and t.ev['init'].get('k') == 'init']
+                    init_zero = bool(inits) and all(const_of(x) == 0 for t in inits for x in t.ev['init'].get('items', []))      # `struct timeval tv = { 0, 0 };`
+                    zero = (bool(sets) or init_zero) and all(const_of(t.ev.get('rhs')) == 0 for t in sets)
                 ok = zero
             R.ob(rule, ok, s, 'the start-up callback %s (it computes what a client must bring) is scheduled to run before the first poll (%s)' % (fa[0]['name'], callee), key='startup-scheduled')
     # ... and nothing else schedules or adds the reader before the loop in a way that could run first: the reader is an
